@@ -90,6 +90,20 @@ func c01Scenarios(tier string) []*Scenario {
 			scs = append(scs, sc)
 		}
 	}
+	// a dependency that takes its time to go down (3 s after the signal) and gets a second request while it
+	// is Terminating: its dependents wait until the command has really gone
+	for _, c := range []string{cCompleted, cSucc} {
+		for _, second := range []string{"stop", "restart"} {
+			a := GNode{Name: "a", Beh: "daemon"}
+			b := leaf("b", map[string]string{"a": c})
+			terminating := func(w *World) bool { return w.lastStat["a"] == "Terminating" }
+			add([]GNode{a, b}, []APICall{{Op: "stop", Name: "a"}, {Op: second, Name: "a", When: terminating}})
+			sc := scs[len(scs)-1]
+			sc.ID += "-slowdie"
+			sc.Procs["a"].DieAfter = 3 * time.Second
+			sc.TickBudget = 4
+		}
+	}
 	// two edges on three processes: chain, fan-in, fan-out
 	conds2 := allConds
 	for _, c1 := range conds2 {
